@@ -53,6 +53,8 @@ pub trait DynAddr: Send {
     fn replace(self: Box<Self>) -> LocalBoxFuture<'static, Option<Box<dyn DynAddr>>>;
     fn as_addr0(&self) -> Option<Addr<Probe<0>>>;
     fn subscribe(&self, topic: u8) -> LocalBoxFuture<'static, HResult<()>>;
+    fn send_seq(&self, m: Seq) -> LocalBoxFuture<'_, HResult<()>>;
+    fn weak_sender_seq(&self) -> WeakSender<Seq>;
     fn unsubscribe(&self, topic: u8) -> LocalBoxFuture<'static, HResult<()>>;
 }
 
@@ -119,6 +121,12 @@ impl<const KK: usize> DynAddr for Addr<Probe<KK>> {
     }
     fn as_addr0(&self) -> Option<Addr<Probe<0>>> {
         (self as &dyn std::any::Any).downcast_ref::<Addr<Probe<0>>>().cloned()
+    }
+    fn send_seq(&self, m: Seq) -> LocalBoxFuture<'_, HResult<()>> {
+        Box::pin(Addr::send(self, m))
+    }
+    fn weak_sender_seq(&self) -> WeakSender<Seq> {
+        Addr::weak_sender(self)
     }
     fn subscribe(&self, topic: u8) -> LocalBoxFuture<'static, HResult<()>> {
         match topic {
@@ -383,4 +391,37 @@ impl<F: Future> Future for Watched<F> {
             }
         }
     }
+}
+
+/// `build(actor).bounded(n)|unbounded()[.recreate_from_default()|.non_restartable()].register().await`
+pub fn spawn_register(d: &ActorDecl) -> LocalBoxFuture<'static, (Uid, HResult<(Box<dyn DynAddr>, Option<Box<dyn DynAddr>>)>)> {
+    match d.k {
+        1 => spawn_register_k::<1>(d.clone()),
+        _ => spawn_register_k::<2>(d.clone()),
+    }
+}
+
+fn spawn_register_k<const KK: usize>(d: ActorDecl) -> LocalBoxFuture<'static, (Uid, HResult<(Box<dyn DynAddr>, Option<Box<dyn DynAddr>>)>)> {
+    Box::pin(async move {
+        let spec = spec_of(&d);
+        register_spec(Arc::clone(&spec));
+        if d.strategy == Strategy::Recreate {
+            set_default_spec(KK, Arc::clone(&spec));
+        }
+        let actor = Probe::<KK>::new(Arc::clone(&spec));
+        let obj = actor.obj;
+        let b = hannibal::build(actor);
+        let b = if let Some(t) = d.timeout { b.timeout(rt::dur(t)) } else { b };
+        let b = b.fail_on_timeout(d.fail_on_timeout);
+        let wc = match d.mailbox {
+            Some(n) => b.bounded(n),
+            None => b.unbounded(),
+        };
+        let r = match d.strategy {
+            Strategy::RestartOnly => wc.register().await,
+            Strategy::Recreate => wc.recreate_from_default().register().await,
+            Strategy::NonRestartable => wc.non_restartable().register().await,
+        };
+        (obj, r.map(|(me, prev)| (Box::new(me) as Box<dyn DynAddr>, prev.map(|p| Box::new(p) as Box<dyn DynAddr>))))
+    })
 }
